@@ -88,6 +88,19 @@ func makeRef(p pageURLParts, form, tok, ext string) (ref, want string) {
 		return "arc/https://other.example/" + name, origin + p.dir(0) + "arc/https://other.example/" + name
 	case "comma-path":
 		return "m/w_400,h_300/" + name, origin + p.dir(0) + "m/w_400,h_300/" + name
+	case "pad-path-rel":
+		// white space around a reference is not part of it
+		return " m/" + name + " ", origin + p.dir(0) + "m/" + name
+	case "pad-root":
+		return "\n/r/" + name + "\t", origin + "/r/" + name
+	case "pad-query":
+		return "  ?f=" + name, origin + p.path() + "?f=" + name
+	case "pad-abs":
+		v := " " + origin + "/abs/" + name + " "
+		return v, v
+	case "pad-fragment":
+		v := " #frag-" + tok
+		return v, v
 	case "abs-same":
 		v := origin + "/abs/" + name
 		return v, v
@@ -159,21 +172,24 @@ func genC06(t *rapid.T) *Case {
 			rel = append(rel, "dotdot2")
 		}
 		var forms []string
+		padded := []string{"pad-path-rel", "pad-root", "pad-query", "pad-abs"}
 		ext := ".png"
 		prefix := "i"
 		switch kind {
 		case "a":
 			forms = append(append([]string{}, rel...), "abs-same", "abs-other", "fragment", "data-text", "javascript", "mailto", "bad-host", "bad-escape", "bad-ctl",
-				"mailto-upper", "javascript-mixed", "file-abs", "file-dots", "tel")
+				"mailto-upper", "javascript-mixed", "file-abs", "file-dots", "tel", "pad-fragment")
+			forms = append(forms, padded...)
 			forms = append(forms, rel...) // relative forms twice as likely
 			ext, prefix = ".html", "l"
 		case "img":
 			forms = append(append([]string{}, rel...), "abs-same", "abs-other", "data", "bad-host", "bad-escape", "fragment", "data-mixed", "file-abs")
+			forms = append(forms, padded...)
 			forms = append(forms, rel...)
 		case "srcset":
 			forms = append(append([]string{}, rel...), "abs-same", "abs-other")
 		case "video", "source-v":
-			forms = append(append([]string{}, rel...), "abs-same", "abs-other", "bad-escape")
+			forms = append(append([]string{}, rel...), "abs-same", "abs-other", "bad-escape", "pad-path-rel", "pad-root")
 			ext, prefix = ".mp4", "v"
 		case "track":
 			forms = append(append([]string{}, rel...), "abs-other")
@@ -289,6 +305,10 @@ func checkC06(c *Case) (*Violation, caseInfo) {
 		if relForm(form) {
 			forms[form] = true
 			carriers[carrier] = true
+		}
+		if form == "pad-abs" && val == strings.TrimSpace(want) {
+			// an absolute URL with white space around it: unchanged, with or without that white space
+			return
 		}
 		if val != want && viol == nil {
 			viol = violationf("C06 wrong-url carrier="+carrier+" form="+form+[]string{"", " second-call"}[callNo],
